@@ -764,6 +764,9 @@ class ReadSetReader:
             distances.sort(key=lambda x: x[1])
             base_qual_score = 30
 
+        if not distances:
+            # The genotype the alleles are restricted to is empty (missing genotype)
+            return None, None
         if len(distances) == 1 or distances[0][1] < distances[1][1]:
             return distances[0][0], base_qual_score  # detected REF
         else:
